@@ -235,7 +235,8 @@ def generate(seed, tier, idx=0):
             ops.append(["init"])
         elif r < 0.16:
             ops.append(["query", rng.choice([0.05, 0.5, 1.0, 0.01, 1e-6, 0.02, 0.1, 0.2, 0.001,
-                                             0.025, 0.15, round(rng.uniform(0.001, 0.999), 3)])])
+                                             0.025, 0.15, round(rng.uniform(0.001, 0.999), 3),
+                                             1e-9, 1.973e-9, 1e-12, 1 - 1e-9])])
     if rng.random() < 0.5:
         ops.insert(0, ["query", 0.05])
     return {"kind": "tally", "variant": rng.choice(["plain", "event", "event+sub", "event+sub"]),
